@@ -578,7 +578,7 @@ func execute(tb ev.TB, fx *fixture, c connCase, mode string) (res opResult, p *p
 		p.connID = len(fx.nw.Conns()) + 1
 	}
 	fx.arm(p)
-	out = guarded(deadline+2*time.Second, func() { res = op.call(e) })
+	out = guarded(deadline+hangSlack, func() { res = op.call(e) })
 	if mode == "stall" && out.Returned {
 		// what counts is the time after the short deadline was set
 		hitMu.Lock()
@@ -709,6 +709,7 @@ func probe(tb ev.TB, c connCase) *baseline {
 			// the uncut response itself is misread: not this property's business (C02), and no basis for the cuts
 			b.absent = true
 			ev.Inconclusive("baseline_differs_from_model")
+			ev.SampleTagged("baseline-differs", 2, map[string]any{"case": c, "diff": d, "outcome": res.String()})
 		}
 	}
 	return b
@@ -753,7 +754,7 @@ func evalConn(tb ev.TB, c connCase, base *baseline, shared *fixture) {
 	}
 	fail := func(sig, format string, args ...any) bool {
 		region, field := base.frame.regionOf(c.K)
-		return ev.Fail(tb, "conn", sig, c, "%s v%d, response of %s #%d cut after %d of %d bytes (%s; %s), variant %s: "+format,
+		return reportFail(tb, "conn", sig, c, "%s v%d, response of %s #%d cut after %d of %d bytes (%s; %s), variant %s: "+format,
 			append([]any{c.Op, c.Ver, apiName(c.TKey), c.TIdx, c.K, base.frame.Len, region, field, c.Variant}, args...)...)
 	}
 	res, p, out, e := execute(tb, fx, c, c.Variant)
@@ -765,11 +766,11 @@ func evalConn(tb ev.TB, c connCase, base *baseline, shared *fixture) {
 	}()
 	sig := opSig(c)
 	if c.Variant == "stall" && out.Returned && out.Took > 80*time.Millisecond+2*time.Second {
-		fail("c17/hang/"+sig, "the call returned only %v after its deadline had been set 80 ms ahead", out.Took)
-		return
+		// it did return; how late is a matter of the load of the machine, not decidable here
+		ev.Inconclusive("returned_late_after_deadline")
 	}
 	if !out.Returned {
-		fail("c17/hang/"+sig, "the call did not return within its deadline + 2 s (waited %v)", out.Took)
+		fail("c17/hang/"+sig, "the call did not return within its deadline + %v (waited %v)", hangSlack, out.Took)
 		return
 	}
 	if out.Panic != nil {
@@ -850,7 +851,7 @@ func evalConn(tb ev.TB, c connCase, base *baseline, shared *fixture) {
 		if e.conn != nil {
 			var lerr error
 			e.conn.SetDeadline(time.Now().Add(60 * time.Millisecond))
-			lo := guarded(3*time.Second, func() { _, lerr = e.conn.ReadLastOffset() })
+			lo := guarded(hangSlack, func() { _, lerr = e.conn.ReadLastOffset() })
 			if !lo.Returned {
 				fail("c17/hang-after-cut/"+sig, "a later ReadLastOffset on the same Conn did not return")
 				return
@@ -929,7 +930,7 @@ func enumerateGroup(tb ev.TB, g connCase, rnd func(n int) int, all bool) {
 		}
 		evalConn(tb, c, base, fx)
 		// RST instead of EOF: every 3rd position (all of them for small responses)
-		if base.frame.Len <= 64 || i%3 == 0 {
+		if all || base.frame.Len <= 64 || i%3 == 0 {
 			c.Variant = "rst"
 			evalConn(tb, c, base, fx)
 		}
@@ -975,7 +976,7 @@ func enumerateGroup(tb ev.TB, g connCase, rnd func(n int) int, all bool) {
 	}
 	wg.Wait()
 	if len(failed) > 0 {
-		tb.Fatalf("%s", failed[0])
+		tb.Fatalf("%s", firstOracleFail(failed))
 	}
 }
 
@@ -1069,7 +1070,7 @@ func TestConnOps(t *testing.T) {
 	close(work)
 	wg.Wait()
 	if len(failed) > 0 {
-		t.Fatalf("%s", failed[0])
+		t.Fatalf("%s", firstOracleFail(failed))
 	}
 }
 
